@@ -13,19 +13,19 @@ import (
 
 // C01 — every call gets exactly one answer, and it is its own.
 //
-//   R-id-echo       the id of every response/error message built anywhere in the library originates from the
-//                   ID member of the request being answered (through parameters: from what every caller passes),
-//                   or is nil where no request could be decoded — never a counter, a global or another message
-//   R-id-fresh      the id of every request a client operation issues is the result of an atomic add
-//   R-id-canon      ids are turned into pending-table keys / compared only through the canonical id renderer,
-//                   never by formatting an interface-typed id with %v
-//   R-once          a user handler is invoked at one call site per function, outside any loop
-//   R-one-answer    no answering call of an HTTP handler can be followed by another one on the same path; a
-//                   response frame is not silently dropped by a `default` arm while the connection stays up
-//   R-fresh-buffer  a reader loop decodes each message into a buffer created in that iteration
-//   R-pending-pair  (shared with C05) pending entries are removed on every path from registration to exit
-//   R-queue-answered  (shared with C03) on queue-answering transports every path after the dispatch enqueues a frame
-//   R-pending-key   (shared with C05) pending keys come from a counter living in the object that holds the table
+//	R-id-echo       the id of every response/error message built anywhere in the library originates from the
+//	                ID member of the request being answered (through parameters: from what every caller passes),
+//	                or is nil where no request could be decoded — never a counter, a global or another message
+//	R-id-fresh      the id of every request a client operation issues is the result of an atomic add
+//	R-id-canon      ids are turned into pending-table keys / compared only through the canonical id renderer,
+//	                never by formatting an interface-typed id with %v
+//	R-once          a user handler is invoked at one call site per function, outside any loop
+//	R-one-answer    no answering call of an HTTP handler can be followed by another one on the same path; a
+//	                response frame is not silently dropped by a `default` arm while the connection stays up
+//	R-fresh-buffer  a reader loop decodes each message into a buffer created in that iteration
+//	R-pending-pair  (shared with C05) pending entries are removed on every path from registration to exit
+//	R-queue-answered  (shared with C03) on queue-answering transports every path after the dispatch enqueues a frame
+//	R-pending-key   (shared with C05) pending keys come from a counter living in the object that holds the table
 func init() { Registry["C01"] = checkC01 }
 
 func isRespType(t types.Type) string {
